@@ -206,21 +206,28 @@ func (m *agentModel) nextHiUpper() (int, bool) {
 		return 0, false
 	}
 	e := m.q[0]
-	switch e.kind {
-	case eExact, eUser, eConnect:
-		return e.wireLen() + 12, true
-	case eStream:
-		return 4 + 4 + 4 + len(e.content) - e.acc + 12 + e.wrapOverhead(), true
-	default:
-		rest := len(e.content) - e.acc
-		hi := 4 + 8 + 4 + rest + 12 + e.wrapOverhead()
-		if rest == 0 && e.chunks > 0 && len(m.q) > 1 {
-			// the group may be complete: the next task is then the one after it
-			if h2 := m.q[1].wireLen() + 12; h2 > hi {
+	hi := e.hiUpper()
+	if e.kind != eExact && e.kind != eUser && e.kind != eConnect && e.kind != eStream {
+		if len(e.content)-e.acc == 0 && e.chunks > 0 && len(m.q) > 1 {
+			// the group may be complete: the next task is then the one after it (which may be the
+			// first chunk of another file: a BOF pushes its object file and its parameters one after the other)
+			if h2 := m.q[1].hiUpper(); h2 > hi {
 				hi = h2
 			}
 		}
-		return hi, true
+	}
+	return hi, true
+}
+
+// hiUpper is an upper bound on the wire size (body + 12-byte task header) of the next task entry e stands for.
+func (e *entry) hiUpper() int {
+	switch e.kind {
+	case eExact, eUser, eConnect:
+		return e.wireLen() + 12
+	case eStream:
+		return 4 + 4 + 4 + len(e.content) - e.acc + 12 + e.wrapOverhead()
+	default:
+		return 4 + 8 + 4 + len(e.content) - e.acc + 12 + e.wrapOverhead()
 	}
 }
 
